@@ -31,11 +31,13 @@ static const size_t EXT_ALIGNS[] = {0, 3, 5, 6, 12, 24, 100, 4095, 4097, ((size_
 static const int NEXT_ALIGNS = sizeof(EXT_ALIGNS) / sizeof(EXT_ALIGNS[0]);
 static const size_t FIXED_SIZES[8] = {24u << 10, 100u << 10, 256u << 10, 1u << 20, (2u << 20) + 4096, 4u << 20, (8u << 20) + 12345 * 8, 32u << 20};
 
-static std::vector<Op> decode(const uint8_t* data, size_t size) {
+static std::vector<Op> decode(FuzzedDataProvider& fdp, size_t body_len) {
     std::vector<Op> ops;
-    const uint8_t* q = data; size_t n = size / 6;
+    size_t n = body_len / 6;
     if (n > (size_t)MAX_OPS) n = MAX_OPS;
-    for (size_t i = 0; i < n; i++, q += 6) {
+    for (size_t i = 0; i < n; i++) {
+        std::vector<uint8_t> rec = fdp.ConsumeBytes<uint8_t>(6);
+        const uint8_t* q = rec.data();
         Op o{};
         o.kind = KIND_TAB[q[0] & 31];
         o.thr = (q[1] & 7) == 7;
@@ -85,14 +87,16 @@ extern "C" int LLVMFuzzerInitialize(int*, char***) {
 extern "C" int LLVMFuzzerTestOneInput(const uint8_t* data, size_t size) {
     S.inputs++;
     if (size < 4 + 6) return 0;
-    // ---- header: the two pool policies and the shape of the extra fault plan
+    // ---- header (4 bytes): the two pool policies and the shape of the extra fault plan; then 6 bytes per operation; the last mask_len bytes are the subset mask
+    FuzzedDataProvider fdp(data, size);
+    std::vector<uint8_t> hdr = fdp.ConsumeBytes<uint8_t>(4);
     for (int i = 0; i < 2; i++) {
-        uint8_t h = data[i];
+        uint8_t h = hdr[i];
         PoolCfg c{};
         c.gran_sel = h & 7; c.over = ((h >> 3) & 3) == 3 ? 0 : (h >> 3) & 3; c.raw_off = (h >> 5) & 3; c.keep_all = 0;
         pool_cfg[i] = c;
     }
-    uint8_t h2 = data[2], h3 = data[3];
+    uint8_t h2 = hdr[2], h3 = hdr[3];
     pool_cfg[0].keep_all = h2 & 1;
     pool_cfg[1].fixed = (h2 >> 1) & 1;                   // P1 may be a fixed pool
     pool_cfg[1].has_free = (h2 >> 2) & 1;
@@ -101,10 +105,12 @@ extern "C" int LLVMFuzzerTestOneInput(const uint8_t* data, size_t size) {
     pool_cfg[0].has_free = 1; pool_cfg[0].fixed_size = FIXED_SIZES[(h3 >> 5) & 7];
     g_leave_live = h3 & 1;
     unsigned mask_len = (h3 >> 1) & 7;                   // 0: no subset run
-    const uint8_t* body = data + 4; size_t blen = size - 4;
+    size_t blen = fdp.remaining_bytes();
+    bool with_mask = mask_len && blen > mask_len + 6;
+    if (with_mask) blen -= mask_len;
+    std::vector<Op> ops = decode(fdp, blen);
     std::vector<uint8_t> mask;
-    if (mask_len && blen > mask_len + 6) { mask.assign(body + blen - mask_len, body + blen); blen -= mask_len; }
-    std::vector<Op> ops = decode(body, blen);
+    if (with_mask) { std::vector<uint8_t> rest = fdp.ConsumeRemainingBytes<uint8_t>(); mask.assign(rest.end() - mask_len, rest.end()); }
     if (ops.empty()) return 0;
     X = ExecCfg(); X.c18 = true;
     { char b[128]; snprintf(b, sizeof b, "C18 trace: %zu ops, leave_live_at_destroy=%d\n", ops.size(), (int)g_leave_live); g_hdr = b; }
